@@ -2,7 +2,7 @@
 (* C07 / C16 - SSH encodings written from RFC 4251 (data types: string, name-list, mpint),
    RFC 4253 (identification string 4.2, binary packet 6, KEXINIT 7.1, key formats 6.6,
    DH messages 8, disconnect 11.1), RFC 4419 (group exchange), RFC 5656 3.1 (ECDSA keys),
-   RFC 8709 (Ed25519) and the HASSH definition (salesforce/hassh).
+   RFC 8709 (Ed25519), OpenSSH PROTOCOL.certkeys (certificates) and the HASSH definition (salesforce/hassh).
    Integers that can exceed 31 bits cross as digit strings (see Prim). *)
 EXTENDS Prim
 
@@ -34,10 +34,33 @@ Disconnect(m)   == <<1>> \o U32D(m.reason) \o Str(m.description) \o Str(m.langua
 NewKeys(m)      == <<21>>
 Unimplemented(m) == <<3>> \o U32D(m.seq)
 
-RsaKey(m)     == Str(m.alg) \o Mp(m.e) \o Mp(m.n)                           \* "ssh-rsa": e then n
-DssKey(m)     == Str(m.alg) \o Mp(m.p) \o Mp(m.q) \o Mp(m.g) \o Mp(m.y)
-EcdsaKey(m)   == Str(m.alg) \o Str(m.curve) \o Str(m.point)
-EddsaKey(m)   == Str(m.alg) \o Str(m.key)
+\* key parameters without the algorithm name (shared by plain keys and certificates)
+KeyParams(kind, m) ==
+  CASE kind = "rsa_key"   -> Mp(m.e) \o Mp(m.n)                              \* "ssh-rsa": e then n
+    [] kind = "dss_key"   -> Mp(m.p) \o Mp(m.q) \o Mp(m.g) \o Mp(m.y)
+    [] kind = "ecdsa_key" -> Str(m.curve) \o Str(m.point)
+    [] kind = "eddsa_key" -> Str(m.key)
+RsaKey(m)     == Str(m.alg) \o KeyParams("rsa_key", m)
+DssKey(m)     == Str(m.alg) \o KeyParams("dss_key", m)
+EcdsaKey(m)   == Str(m.alg) \o KeyParams("ecdsa_key", m)
+EddsaKey(m)   == Str(m.alg) \o KeyParams("eddsa_key", m)
+
+\* OpenSSH certificates (PROTOCOL.certkeys).  Options / extensions are tuples (string name, string data); the data of a
+\* flag is empty, the data of a string-valued option is ITSELF a buffer holding one string (ssh-keygen add_string_option:
+\* put_cstring(b, value); put_cstring(c, name); put_stringb(c, b)), unknown ones are kept as raw data.
+U64D(d) == EncBE(d, 8)
+Ts64(t) == IF t.forever THEN Ones(8) ELSE U64D(t.secs)
+OptData(o) == CASE o.k = "flag" -> <<>> [] o.k = "string" -> Str(o.v) [] OTHER -> o.v
+Packed(opts) == FlattenS([i \in 1..Len(opts) |-> Str(opts[i].name) \o Str(OptData(opts[i]))])
+Principals(ps) == FlattenS([i \in 1..Len(ps) |-> Str(ps[i])])
+CertSignature(m) == Str(Str(m.sig_type) \o Str(m.sig_data))
+CertV01(m) == Str(m.alg) \o Str(m.nonce) \o KeyParams(m.key_kind, m.key) \o U64D(m.serial) \o U32D(m.type) \o Str(m.key_id)
+              \o Str(Principals(m.principals)) \o Ts64(m.after) \o Ts64(m.before) \o Str(Packed(m.options))
+              \o Str(Packed(m.extensions)) \o Str(m.reserved) \o Str(m.sigkey) \o CertSignature(m)
+\* the legacy -v00 format: no serial, constraints instead of options/extensions, nonce near the end
+CertV00(m) == Str(m.alg) \o KeyParams(m.key_kind, m.key) \o U32D(m.type) \o Str(m.key_id)
+              \o Str(Principals(m.principals)) \o Ts64(m.after) \o Ts64(m.before) \o Str(Packed(m.options))
+              \o Str(m.nonce) \o Str(m.reserved) \o Str(m.sigkey) \o CertSignature(m)
 
 \* identification string: "SSH-" protoversion "-" softwareversion [SP comments] CR LF
 Banner(m) == <<83, 83, 72, 45>> \o m.proto \o <<45>> \o m.software \o (IF m.has_comment THEN <<32>> \o m.comment ELSE <<>>) \o <<13, 10>>
@@ -56,6 +79,8 @@ SshEnc(kind, m) ==
     [] kind = "ecdsa_key"   -> EcdsaKey(m)
     [] kind = "eddsa_key"   -> EddsaKey(m)
     [] kind = "banner"      -> Banner(m)
+    [] kind = "cert_v01"    -> CertV01(m)
+    [] kind = "cert_v00"    -> CertV00(m)
 
 \* values the RFCs allow (the parse-back clause is claimed for these only; the layout clause for every value)
 SSH_RSA == <<115, 115, 104, 45, 114, 115, 97>>
@@ -71,6 +96,7 @@ KeyConformant(kind, m) ==
 Conformant(kind, m) ==
   CASE kind = "kexinit"   -> Len(m.cookie) = 16
     [] kind = "dh_reply"  -> KeyConformant(m.key_kind, m.key)             \* the host key inside is one the RFCs define
+    [] kind \in {"cert_v01", "cert_v00"} -> m.alg_matches_key /\ Len(m.serial) <= 8 /\ KeyConformant(m.sigkey_kind, m.sigkey_abs)
     [] kind = "banner"    -> 4 + Len(m.proto) + 1 + Len(m.software) + (IF m.has_comment THEN 1 + Len(m.comment) ELSE 0) + 2 <= 255
                              /\ (\A i \in 1..Len(m.comment) : m.comment[i] \notin {10, 13})
                              /\ (\A i \in 1..Len(m.software) : m.software[i] \notin {10, 13, 32, 45})
